@@ -98,6 +98,9 @@ MODES = {
     'A': ['-O0', '-g', '-Xclang', '-disable-O0-optnone', '-Xclang', '-disable-llvm-passes'],
     # folded IR for the bit-provenance engine
     'O': ['-O2', '-g0', '-fno-vectorize', '-fno-slp-vectorize', '-fno-unroll-loops'],
+    # analysis IR with scalar replacement: like A, but locals whose address is only used for type punning (__m64 values coerced
+    # through memory at -O0) become SSA values too
+    'S': ['-O0', '-g', '-Xclang', '-disable-O0-optnone', '-Xclang', '-disable-llvm-passes'],
 }
 
 
@@ -109,8 +112,8 @@ def compile_ir(src, flags, mode, out_ll, extra=(), incdirs=()):
     r = subprocess.run(cmd, capture_output=True, text=True)
     if r.returncode != 0:
         raise AnalysisBroken('clang failed on %s: %s' % (src, r.stderr[-3000:]))
-    if mode == 'A':
-        r = subprocess.run(['opt-14', '-S', '-passes=mem2reg', out_ll, '-o', out_ll], capture_output=True, text=True)
+    if mode in ('A', 'S'):
+        r = subprocess.run(['opt-14', '-S', '-passes=' + ('mem2reg' if mode == 'A' else 'sroa'), out_ll, '-o', out_ll], capture_output=True, text=True)
         if r.returncode != 0:
             raise AnalysisBroken('opt mem2reg failed on %s: %s' % (src, r.stderr[-2000:]))
 
